@@ -188,6 +188,7 @@ class FakeSnowflakeCursor:
             .transform(transforms.object_construct)
             .transform(transforms.timestamp_ntz)
             .transform(transforms.float_to_double)
+            .transform(transforms.hex_string)
             .transform(transforms.integer_precision)
             .transform(transforms.extract_text_length)
             .transform(transforms.sample)
